@@ -740,6 +740,8 @@ type Exec struct {
 	ReadOnly  func(name string) bool
 	MaxStates int
 	MaxSteps  int
+	// NoInitTables: do not read package-level variables as what their initialiser left in them
+	NoInitTables bool
 	MaxDepth  int
 	// MaxRecursion is how many activations of one function may be on the abstract stack
 	// beyond the first (0: a recursive call stays opaque).
@@ -790,7 +792,10 @@ func repoFunc(fn *ssa.Function) bool {
 		// thunks, wrappers and bound-method closures only forward to the method they stand for
 		return fn.Synthetic != "" && len(fn.Blocks) > 0 && (strings.Contains(fn.Synthetic, "thunk") || strings.Contains(fn.Synthetic, "wrapper") || strings.Contains(fn.Synthetic, "bound"))
 	}
-	p := fn.Pkg.Pkg.Path()
+	return repoPkgPath(fn.Pkg.Pkg.Path())
+}
+
+func repoPkgPath(p string) bool {
 	first := p
 	if i := strings.IndexByte(p, '/'); i >= 0 {
 		first = p[:i]
@@ -1856,6 +1861,9 @@ func (ex *Exec) val(s *astate, fr *aframe, v ssa.Value) AVal {
 	case *ssa.Const:
 		return constVal(x)
 	case *ssa.Global:
+		if !ex.NoInitTables {
+			ex.seedGlobal(s, x)
+		}
 		return AVal{K: APtr, Path: "global:" + x.Pkg.Pkg.Path() + "." + x.Name()}
 	case *ssa.Function:
 		return AVal{K: AUnknown, Path: "func:" + FuncName(x), Fn: x, NonNil: true}
@@ -2077,6 +2085,16 @@ func (ex *Exec) eval(s *astate, fr *aframe, v ssa.Value) AVal {
 				}
 			}
 			if a.K == APtr {
+				if a.Sym && strings.HasPrefix(a.Path, "global:") {
+					// an element of a package-level table at an index the path does not know: a name of
+					// its own (the table's zero default is for the cells its initialiser left alone)
+					if v, has := s.mem.cells[a.Path]; has {
+						return v
+					}
+					r := unknownOf(a.Path, x.Type(), false)
+					registerSources(r)
+					return r
+				}
 				r := s.mem.Load(a.Path, x.Type())
 				registerSources(r)
 				return r
@@ -2095,6 +2113,22 @@ func (ex *Exec) eval(s *astate, fr *aframe, v ssa.Value) AVal {
 				return AVal{K: AInt, Bits: out}
 			}
 		case token.SUB:
+			if a.K == AInt && len(a.Bits) > 1 {
+				// -(0 or 1) is all zeroes or all ones: every bit is the low bit (a mask made from a flag)
+				flag := true
+				for _, bt := range a.Bits[1:] {
+					if bt.Kind != BZero {
+						flag = false
+					}
+				}
+				if _, isK := a.ConstVal(); flag && !isK {
+					out := make(BitVec, len(a.Bits))
+					for i := range out {
+						out[i] = a.Bits[0]
+					}
+					return AVal{K: AInt, Bits: out}
+				}
+			}
 			if k, ok := a.ConstVal(); ok {
 				w := len(a.Bits)
 				return AVal{K: AInt, Bits: constBits(truncTo(-k, w), w)}
@@ -2529,6 +2563,25 @@ func (ex *Exec) binop(s *astate, fr *aframe, x *ssa.BinOp) AVal {
 			return AVal{K: AInt, Bits: out}
 		}
 		return opaqueOp(x.Op, l.Bits, r.Bits, w)
+	case token.QUO, token.REM:
+		// unsigned division by a power of two is a right shift, the remainder a mask
+		if rc && !signed && rk != 0 && rk&(rk-1) == 0 && len(l.Bits) == w {
+			n := 0
+			for k := rk; k > 1; k >>= 1 {
+				n++
+			}
+			out := make(BitVec, w)
+			for i := 0; i < w; i++ {
+				out[i] = Bit{Kind: BZero}
+				if x.Op == token.QUO && i+n < w {
+					out[i] = l.Bits[i+n]
+				}
+				if x.Op == token.REM && i < n {
+					out[i] = l.Bits[i]
+				}
+			}
+			return AVal{K: AInt, Bits: out}
+		}
 	case token.MUL:
 		// multiplication by a power of two is a shift
 		sh := func(a BitVec, k uint64) (AVal, bool) {
